@@ -57,14 +57,14 @@ let show_wres = function
   | Trials.WOk ws -> show_zlist ws | Trials.WErrEqual -> "ErrEqual" | Trials.WErrDiv -> "ErrDiv" | Trials.WErrIndex -> "ErrIndex"
 let () =
   (* (trials FLAT MODE (w0 ...)) ->
-     min_raw min_rounded early (preambles) for_crossings trials weights common_preamble geometry0 (sizes_no_excl) *)
+     min_raw min_rounded (preambles) for_crossings trials weights common_preamble geometry0 (sizes_no_excl) *)
   register "trials" (function [f; m; ws] ->
     let fb = Wire_flat.flat_of_sexp f in
     let mode = mode_of_sexp m in
     let ws0 = zlist_of_sexp ws in
     let t = Trials.model_trials fb in
     show_z (Trials.min_trials_raw fb) ^ " " ^ show_opt show_z (Trials.model_min_trials fb) ^ " "
-    ^ show_bool (Trials.cached_early fb) ^ " " ^ show_opt show_natlist (Trials.model_preambles fb) ^ " "
+    ^ show_opt show_natlist (Trials.model_preambles fb) ^ " "
     ^ show_opt show_nat (Trials.trials_for_crossings fb) ^ " " ^ show_opt show_z t ^ " "
     ^ (match t with Some tt -> show_wres (Trials.model_weights fb mode tt ws0) | None -> "none") ^ " "
     ^ show_opt show_nat (Trials.common_preamble fb) ^ " " ^ show_opt show_pairnn (Trials.model_geometry fb O) ^ " "
